@@ -101,8 +101,21 @@ def validator_shapes() -> list:
     conj = reg_vale(eq_a & inst_s, ['and', VALE_REGISTRY[id(eq_a)], VALE_REGISTRY[id(inst_s)]])
     disj = reg_vale(attr_x | is2, ['or', VALE_REGISTRY[id(attr_x)], VALE_REGISTRY[id(is2)]])
     neg = reg_vale(~eq_a, ['not', VALE_REGISTRY[id(eq_a)]])
+    # the SAME attribute name nested under a compound validator whose later operand reads the outer attribute again
+    # (only classes every Registry numbers identically may be named here: int)
+    inst_i = reg_vale(IsInstance[int], ['inst', str(reg.id(int))])
+    not_i = reg_vale(~inst_i, ['not', VALE_REGISTRY[id(inst_i)]])
+    in_x = IsAttr['x', eq_1]
+    reg_vale(in_x, ['attr', 'x', ['eq', ['i', '1']]])
+    comp = reg_vale(in_x & not_i, ['and', VALE_REGISTRY[id(in_x)], VALE_REGISTRY[id(not_i)]])
+    nest_and = reg_vale(IsAttr['x', comp], ['attr', 'x', VALE_REGISTRY[id(comp)]])
+    in_or = in_x | is2
+    reg_vale(in_or, ['or', VALE_REGISTRY[id(in_x)], VALE_REGISTRY[id(is2)]])
+    not_or = reg_vale(~in_or, ['not', VALE_REGISTRY[id(in_or)]])
+    comp2 = reg_vale(not_or | not_i, ['or', VALE_REGISTRY[id(not_or)], VALE_REGISTRY[id(not_i)]])
+    nest_or = reg_vale(IsAttr['x', comp2], ['attr', 'x', VALE_REGISTRY[id(comp2)]])
     vsets = [(eq_a,), (eq_a, inst_s), (inst_s, eq_a), (attr_x,), (attr_x, eq_1), (attr_xy,), (sub_i,), (sub_i, sub_i),
-             (conj,), (disj, neg), (neg, is2, inst_s), (is2,)]
+             (conj,), (disj, neg), (neg, is2, inst_s), (is2,), (nest_and,), (nest_or,)]
     for meta in (T.Any, object, str, gen.U0):
         for vs in vsets:
             a = T.Annotated[(meta,) + vs]
